@@ -467,3 +467,83 @@ proof fn lemma_round_trip(x: i64, radix: int, out: Seq<char>)
         safety_id="C25.format_radix.safety", safety_text="no arithmetic overflow (incl. x == i64::MIN), from_digit never None, the digit loop terminates (decreases x)",
     )],
 )
+
+# ------------------------------------------------------------------------------------------------
+TGT_SAME = "final(ctx).target == old(ctx).target"
+UNITS["v_target_ops"] = dict(
+    prop=["C17", "C06", "C07", "C16"], tier="q", prelude=["interp.rs", "target.rs"],
+    fns=[
+        dict(id="external_path", file=EXPR + "query.rs", impl="impl Query", name="external_path",
+             orig_sig="fn external_path(&self) -> Option<OwnedTargetPath>",
+             wrap=("impl Query {", "}"), sig="pub fn external_path(&self) -> (r: Option<OwnedTargetPath>)",
+             rewrites=[dict(**{"from": "Target::External(prefix)", "to": "QueryTarget::External(prefix)", "why": "prelude name of query::Target"})],
+             ensures=[("C16.external_path.spec", "a query reports an external path exactly when its target is the event or metadata, with its own prefix and path",
+                       "(match self.target { QueryTarget::External(p) => r == Some(OwnedTargetPath { prefix: p, path: self.path }), _ => r is None })")],
+             safety_id="C04.external_path.safety"),
+        dict(id="query_resolve", file=EXPR + "query.rs", impl="impl Expression for Query", name="resolve", orig_sig=SIG_RESOLVE,
+             wrap=("impl Query {", "}"), sig=VSIG,
+             rewrites=[dict(**{"from": "use Target::{Container, External, FunctionCall, Internal};", "to": "use crate::QueryTarget::{Container, External, FunctionCall, Internal};", "why": "prelude name of query::Target"})],
+             ensures=[
+                 ("C17.query.read_fault_is_missing", "an external query yields the target's value, and null both for a missing field and for a rejected read; it never fails",
+                  "self.target is External ==> r == Ok::<Value, ExpressionError>(read_as_missing(old(ctx).target.spec_get(OwnedTargetPath { prefix: self.target->External_0, path: self.path })))"),
+                 ("C17.query.no_target_write", "an external query performs no target write or deletion and evaluates nothing",
+                  "self.target is External ==> %s && final(ctx).trace@ == old(ctx).trace@" % TGT_SAME),
+                 ("C06.query.ctl", "abort/return raised by the queried expression propagate unchanged",
+                  "!(self.target is External) ==> final(ctx).trace@.len() == old(ctx).trace@.len() + 1 && (final(ctx).trace@.last() is Eval) && (final(ctx).trace@.last()->Eval_1 is Err ==> r == final(ctx).trace@.last()->Eval_1)"),
+             ],
+             safety_id="C17.query_resolve.safety", safety_text="no panic on any target answer"),
+        dict(id="del", file="src/stdlib/del.rs", impl=None, name="del",
+             orig_sig="fn del(query: &expression::Query, compact: bool, ctx: &mut Context) -> Resolved",
+             sig="pub fn del(query: &Query, compact: bool, ctx: &mut Context) -> (r: Resolved)",
+             ensures=[
+                 ("C17.del.fault_is_null", "deleting an external path yields the removed value, and null when nothing was there or the target rejected the deletion; it never fails",
+                  "query.target is External ==> final(ctx).target.ops@.len() == old(ctx).target.ops@.len() + 1 && final(ctx).target.ops@.last() is Remove && r == Ok::<Value, ExpressionError>(match final(ctx).target.ops@.last()->Remove_2 { Ok(Some(v)) => v, _ => Value::Null })"),
+                 ("C17.del.one_op", "exactly one target removal, on the query's own path, with the requested compaction; no retry and no other target operation",
+                  "query.target is External ==> final(ctx).target.ops@ == old(ctx).target.ops@.push(final(ctx).target.ops@.last()) && final(ctx).target.ops@.last()->Remove_0 == (OwnedTargetPath { prefix: query.target->External_0, path: query.path }) && final(ctx).target.ops@.last()->Remove_1 == compact"),
+                 ("C17.del.internal_no_target", "deleting from a variable or an expression never touches the target",
+                  "query.target is Internal ==> %s" % TGT_SAME),
+             ],
+             safety_id="C17.del.safety", safety_text="no panic on any target answer"),
+        dict(id="exists", file="src/stdlib/exists.rs", impl=None, name="exists",
+             orig_sig="fn exists(query: &expression::Query, ctx: &mut Context) -> Resolved",
+             sig="pub fn exists(query: &Query, ctx: &mut Context) -> (r: Resolved)",
+             rewrites=[dict(**{"from": r"Ok\(((?:(?!Ok\().)*?)\.is_some\(\)\s*\.into\(\)\)", "to": r"Ok(Value::Boolean(\1.is_some()))", "regex": True, "why": "From<bool> for Value"}),
+                       dict(**{"from": "Ok(false.into())", "to": "Ok(Value::Boolean(false))", "why": "From<bool> for Value"})],
+             ensures=[
+                 ("C17.exists.fault_is_missing", "exists() on an external path is true exactly when the read succeeds with a value: a rejected read counts as missing; it never fails",
+                  "query.target is External ==> r == Ok::<Value, ExpressionError>(Value::Boolean(old(ctx).target.spec_get(OwnedTargetPath { prefix: query.target->External_0, path: query.path }) is Ok && old(ctx).target.spec_get(OwnedTargetPath { prefix: query.target->External_0, path: query.path })->Ok_0 is Some))"),
+                 ("C17.exists.no_write", "exists() performs no target write or deletion", "query.target is External || query.target is Internal ==> final(ctx).target.ops@ == old(ctx).target.ops@"),
+             ],
+             safety_id="C17.exists.safety"),
+        dict(id="target_insert", file=EXPR + "assignment.rs", impl="impl Target", name="insert",
+             orig_sig="fn insert(&self, value: Value, ctx: &mut Context)",
+             wrap=("impl ATarget {", "}"), sig="pub fn insert(&self, value: Value, ctx: &mut Context)",
+             rewrites=[dict(**{"from": "use Target::{External, Internal, Noop};", "to": "use crate::ATarget::{External, Internal, Noop};", "why": "prelude name of assignment::Target"}),
+                       dict(**{"from": "drop(ctx.target_mut().target_insert(path, value));", "to": "let _ = ctx.target_mut().target_insert(path, value);", "why": "drop(x) == let _ = x for a Result<(), String>"})],
+             ensures=[
+                 ("C17.assign.one_write", "an external assignment performs exactly one target insert of the value at its own path; a rejected write is not retried or redirected, and the variable store is untouched",
+                  "self is External ==> final(ctx).target.ops@.len() == old(ctx).target.ops@.len() + 1 && final(ctx).target.ops@ == old(ctx).target.ops@.push(final(ctx).target.ops@.last()) && final(ctx).target.ops@.last() is Insert && final(ctx).target.ops@.last()->Insert_0 == self->External_0 && final(ctx).target.ops@.last()->Insert_1 == value && final(ctx).state == old(ctx).state"),
+                 ("C17.assign.internal_no_target", "assigning to a variable or to `_` never touches the target",
+                  "!(self is External) ==> %s" % TGT_SAME),
+                 ("C08.assign.variable_root", "assigning a whole variable stores exactly the value under that identifier and changes no other variable",
+                  "self is Internal && self->Internal_1.root ==> final(ctx).state.vars@ == old(ctx).state.vars@.insert(self->Internal_0.id, value)"),
+                 ("C08.assign.noop", "assigning to `_` changes nothing", "self is Noop ==> final(ctx).state == old(ctx).state && %s" % TGT_SAME),
+             ],
+             safety_id="C17.target_insert.safety", safety_text="no panic whatever the target answers"),
+        dict(id="runtime_resolve", file="src/compiler/runtime.rs", impl="impl Runtime", name="resolve",
+             orig_sig="fn resolve( &mut self, target: &mut dyn Target, program: &Program, timezone: &TimeZone, ) -> RuntimeResult",
+             wrap=("impl Runtime {", "}"),
+             sig="pub fn resolve(&mut self, target: &mut TargetObj, program: &ProgramObj, timezone: &TimeZone) -> (r: RuntimeResult)",
+             rewrites=[dict(**{"from": '"expected target object, got nothing".to_owned().into()', "to": "opaque_error()", "why": "error message text is opaque (String -> ExpressionError::Error)"}),
+                       dict(**{"from": r'format!\("error querying target object: \{err\}"\)\.into\(\)', "to": "opaque_error()", "regex": True, "why": "error message text is opaque"}),
+                       dict(**{"from": r"let mut ctx = Context::new\(target, &mut self\.state, timezone\);\s*match program\.resolve\(&mut ctx\) \{", "regex": True, "count": 1,
+                               "to": "match program.resolve_with(target, &mut self.state, timezone) {", "why": "Context is a bundle of the three borrows; running the program is the child contract resolve_with"})],
+             ensures=[
+                 ("C17.runtime.root_unreadable", "a target whose root cannot be read (fault or nothing there) ends the run with an error and the program is not run",
+                  "!(old(target).spec_get(OwnedTargetPath::event_root_spec()) is Ok && old(target).spec_get(OwnedTargetPath::event_root_spec())->Ok_0 is Some) ==> r is Err && r->Err_0 is Error && final(target).ops@ == old(target).ops@"),
+                 ("C06.runtime.outcome", "otherwise the program runs exactly once; success and `return v` end the run successfully with the value, abort ends it with the abort outcome unchanged, a runtime error with Terminate::Error",
+                  "(old(target).spec_get(OwnedTargetPath::event_root_spec()) is Ok && old(target).spec_get(OwnedTargetPath::event_root_spec())->Ok_0 is Some) ==> final(target).ops@.len() == old(target).ops@.len() + 1 && final(target).ops@ == old(target).ops@.push(final(target).ops@.last()) && final(target).ops@.last() is ProgramRun && r == run_outcome(final(target).ops@.last()->ProgramRun_0)"),
+             ],
+             safety_id="C17.runtime_resolve.safety", safety_text="no panic whatever the target answers"),
+    ],
+)
